@@ -11,14 +11,28 @@ import random
 
 LEX = ["a", " ", "\n", "\t", "=", "==", "*", "#", ":", ";", "'", "''", "'''", "[", "[[", "]", "]]", "{|", "|}", "|-", "|", "||", "!", "!!", "|+",
        "<", ">", "<b>", "</b>", "<br/>", "<nowiki>", "</nowiki>", "<!--", "-->", "&amp;", "&#65;", "&#x41;", "&", "&bogus;", "http://x.org", "mailto:a@b.c",
-       "https://", "ftp://h/p", "//x.org", "----", "\x7fUNIQ-nowiki-0-ab-QINU\x7f", "\x7f", "", "\x00", "\U0001F600", "ä", "{{", "}}", "~~~", "\r", "_",
+       "https://", "ftp://h/p", "//x.org", "----", "\x7fUNIQ-nowiki-0-ab-QINU\x7f", "\x7f", "\uebad", "\x00", "\U0001F600", "ä", "{{", "}}", "~~~", "\r", "_",
        "<ref name=\"a\">", "<math>", "1", "."]
 
 
 def tiling_violation(text):
+    msg = _tiling(text, False)
+    if msg:
+        return msg
+    if "\0" in text or not text:
+        return None
+    msg = _tiling(text, True)
+    return ("token list of tokenize(): " + msg) if msg else None
+
+
+def _tiling(text, compat):
     from mwlib.parser.token import utoken
-    toks = utoken.scan(text)
-    EB = ""
+    if compat:
+        # the same contract one layer up: the Token objects the parser receives (start / len of each token)
+        toks = [(t.type, t.start, t.len) for t in utoken.tokenize(text) if t.start is not None and t.len is not None]
+    else:
+        toks = utoken.scan(text)
+    EB = "\uebad"      # the reserved blacklist marker (written as an escape: the literal character does not survive every editor)
     end = text.find("\0")
     if end < 0:
         end = len(text)
@@ -63,7 +77,8 @@ def run(chk):
             break
     # line structure is decided by runs of blanks and newlines (break / pre / BOL rules): small alphabets, deep
     if not fail:
-        for alpha, depth2 in ((["\n", " ", "a"], 8 if chk.tier == "quick" else 10), (["\n", " ", "a", "|", "*", "="], 5 if chk.tier == "quick" else 6)):
+        for alpha, depth2 in ((["\n", " ", "a"], 8 if chk.tier == "quick" else 10), (["\n", " ", "a", "|", "*", "="], 5 if chk.tier == "quick" else 6),
+                          (["=", " ", "\uebad", "a", "\n"], 6 if chk.tier == "quick" else 7), ([" ", ":", "{|", "\n", "*"], 5 if chk.tier == "quick" else 6)):
             for k in range(depth + 1, depth2 + 1):
                 for t in itertools.product(alpha, repeat=k):
                     text = "".join(t)
